@@ -108,6 +108,19 @@ fn gen_program(kind: TKind, run_seed: u64, _tier: Tier) -> TProgram {
     if rng.chance(1, 2) {
         init.push(InitOp::Req(SymReq::store(op::SET, &other, Val::Bytes(b"by".to_vec()), 5, 0, CasSel::Zero)));
     }
+    // the clock may move while clients are inside the store: an item that is
+    // about to expire, and one client step that advances the clock past it
+    // (C16 only: C03's quantifier fixes the clock during the concurrent phase - with a moving
+    // clock a get that copied a live item and read the clock a tick later answers 'miss'
+    // although the key was never absent; noted in DESIGN.md 8.4, not a C03 violation)
+    let ticking = matches!(kind, TKind::C16) && rng.chance(1, 4);
+    if ticking {
+        let v = init_val(&mut rng);
+        init.push(InitOp::Req(SymReq::store(op::SET, &main, v, rng.next() as u32, 2, CasSel::Zero)));
+        if rng.chance(1, 2) {
+            init.push(InitOp::AdvanceSecs(1));
+        }
+    }
     if matches!(kind, TKind::C14 | TKind::C16) && rng.chance(1, 2) {
         for (i, k) in keys.iter().enumerate().skip(2) {
             init.push(InitOp::Req(SymReq::store(op::SET, k, Val::Fill { byte: b'x', len: 10 + i as u32 * 7 }, 0, 0, CasSel::Zero)));
@@ -177,6 +190,12 @@ fn gen_program(kind: TKind, run_seed: u64, _tier: Tier) -> TProgram {
             };
             r.opaque = opaque;
             ops.push(r);
+        }
+        if ticking && _t == 0 {
+            let mut tick = SymReq::new(crate::ringt::TICK, b"");
+            tick.cas = CasSel::Literal(rng.range(1, 3));
+            let pos = rng.usize(ops.len() + 1);
+            ops.insert(pos, tick);
         }
         clients.push(ops);
     }
